@@ -766,7 +766,7 @@ func genChunk(t *rapid.T) []Op {
 func gen(t *rapid.T) Prog {
 	p := Prog{
 		Shares:    rapid.IntRange(1, 3).Draw(t, "shares"),
-		Disk:      rapid.IntRange(0, 7).Draw(t, "disk") == 0,
+		Disk:      rapid.IntRange(0, 15).Draw(t, "disk") == 0,
 		Enc:       rapid.Bool().Draw(t, "enc"),
 		Builder:   rapid.Bool().Draw(t, "builder"),
 		StartSlot: rapid.Uint64Range(10*slotsPerEpoch, 12*slotsPerEpoch+31).Draw(t, "start"),
